@@ -8,6 +8,8 @@ import (
 	"strings"
 	"testing"
 	"time"
+
+	"cffverif/progen"
 )
 
 // MinimiseBudget bounds the wall-clock time spent shrinking one violation.
@@ -110,6 +112,9 @@ func Minimise(t *testing.T, d *Desc, prop, class string, maxTrials int) (*Desc, 
 		if time.Now().After(deadline) {
 			trials = maxTrials // wall-clock budget used up: stop shrinking, keep what we have
 			return nil, false
+		}
+		if !barriersSatisfiable(c) {
+			return nil, false // fewer barrier parties than the barrier needs: the symptom would be the harness's
 		}
 		trials++
 		r := Exec(t, c, true, false, nil)
@@ -226,4 +231,44 @@ func Minimise(t *testing.T, d *Desc, prop, class string, maxTrials int) (*Desc, 
 		return nil, nil, trials
 	}
 	return best, final, trials
+}
+
+// barriersSatisfiable: every execution that runs as a capacity test (N-party
+// barrier) still has at least N user functions that can meet at the barrier.
+func barriersSatisfiable(d *Desc) bool {
+	for _, path := range execPaths(d) {
+		x := execAt(d, path)
+		if !x.Barrier {
+			continue
+		}
+		p := programs[x.Prog].P
+		if p.Par == nil {
+			return false
+		}
+		bodies := 0
+		for _, t := range p.Par.Tasks {
+			if x.TaskOut[t.ID] == progen.OK {
+				bodies++
+			}
+		}
+		for _, c := range p.Par.Colls {
+			if cd := x.Colls[c.ID]; cd != nil && !cd.Nil {
+				bodies += len(cd.Vals) - len(cd.Fail)
+			}
+		}
+		limit := 0
+		switch p.Par.ConcMode {
+		case progen.ArgConst:
+			limit = p.Par.ConcConst
+		case progen.ArgRuntime:
+			limit = x.Conc
+		}
+		if limit <= 0 {
+			limit = max(d.GOMAXPROCS, 4)
+		}
+		if bodies < limit {
+			return false
+		}
+	}
+	return true
 }
